@@ -162,3 +162,60 @@ Arguments inv_std_entry {O} o.
 Arguments scale_matrix {O k} c.
 Arguments omul_entry {O} o s.
 Arguments acorr_from_acov {O k} acov.
+
+(* ------------------------------------------------------------------------ *)
+(* Entry point of the correspondence run: the SAME model text instantiated on  *)
+(* exact dyadic numbers (lib/MxC15.v: LOps), fed with the solution matrices of *)
+(* the variant, the std vectors assigned through the public API, the recorded  *)
+(* output of scipy.linalg.solve_discrete_lyapunov and the shifts of the        *)
+(* solution-vector tokens; compared with get_acov / get_acorr.                 *)
+(* ------------------------------------------------------------------------ *)
+From Coq Require Import ZArith PrimFloat.
+
+Record ccase := {
+  c_nu : nat; c_ns : nat; c_ny : nat; c_ne : nat; c_nw : nat;
+  c_Ta : list (list float); c_Pa : list (list float); c_Za : list (list float);
+  c_H : list (list float); c_Ua : list (list float);
+  c_tol : float;                                   (* eigenvalue tolerance of the model object *)
+  c_stdu : list float; c_stdw : list float;        (* std vectors, in the order of the shock tokens *)
+  c_X : list (list float);                         (* recorded Lyapunov output *)
+  c_shifts : list Z;                               (* shifts of transition_variables ++ measurement_variables *)
+  c_order : nat;
+  c_acov : list (list (list float));               (* get_acov(up_to_order=c_order), this variant; NaN = masked *)
+  c_acorr : list (list (list float));              (* get_acorr(up_to_order=c_order), this variant *)
+}.
+
+Fixpoint zero_shift_positions (shifts : list Z) (i : nat) : list nat :=
+  match shifts with
+  | [] => []
+  | s :: r => if Z.eqb s 0 then i :: zero_shift_positions r (S i) else zero_shift_positions r (S i)
+  end.
+
+Definition case_solution (c : ccase) : solution LOps (c_nu c) (c_ns c) (c_ny c) (c_ne c) (c_nw c) :=
+  Build_solution (O:=LOps) (lmx_of (c_Ta c)) (lmx_of (c_Pa c)) (lmx_of (c_Za c)) (lmx_of (c_H c))
+                 (lmx_of (c_Ua c)) (dyf0 (c_tol c)).
+
+Definition case_acov (c : ccase) : list lomx :=
+  let sel := zero_shift_positions (c_shifts c) 0 in
+  getv_autocov (O:=LOps) (case_solution c) (k:=length sel) sel (lmx_of [c_stdw c]) (lmx_of (c_X c)) (c_order c).
+
+Definition case_acorr (c : ccase) : list lomx :=
+  acorr_from_acov (O:=LOps) (k:=length (zero_shift_positions (c_shifts c) 0)) (case_acov c).
+
+(* the solver's contract on the recorded output: X = Ta_stable X Ta_stable' + sigma_u, X symmetric *)
+Definition case_contract (ctol : dy) (c : ccase) : bool :=
+  let sol := case_solution c in
+  let X := lmx_of (c_X c) in
+  let T := Ta_stable sol in
+  let ns := c_ns c in
+  let rhs := madd LOps (m:=ns) (n:=ns)
+               (mmul LOps (m:=ns) (n:=ns) (p:=ns) (mmul LOps (m:=ns) (n:=ns) (p:=ns) T X) (mtr LOps (m:=ns) (n:=ns) T))
+               (lyap_rhs sol (lmx_of [c_stdu c])) in
+  lmx_close ctol X rhs && lmx_close ctol X (mtr LOps (m:=ns) (n:=ns) X).
+
+(* 0 = agrees; 1 = recorded solver output violates its contract; 2 = get_acov differs; 3 = get_acorr differs *)
+Definition run_case (ctol tol : dy) (c : ccase) : nat :=
+  if negb (case_contract ctol c) then 1
+  else if negb (lomx_list_close tol (case_acov c) (map lomx_of (c_acov c))) then 2
+  else if negb (lomx_list_close tol (case_acorr c) (map lomx_of (c_acorr c))) then 3
+  else 0.
